@@ -110,6 +110,7 @@ def snap(w):
         "stored": stored_counters(w.j, w.T, w.S), "nmsg": len(c.delivered), "nlogon": c.n_logon, "nlogout": c.n_logout,
         "ndisc": c.n_disconnect, "nout": len(w.writer.out) if w.writer else 0,
         "rows_out": len([1 for r in journal_rows(w.j) if r[1] == 1]),
+        "nev": len(c.ev),
     }
 
 
@@ -162,6 +163,14 @@ def apply(w, mon, stim, rootname, role):
 
     if w.livelock:
         return V("livelock", ":".join(map(str, stim)), "every stimulus is processed to quiescence")
+    # nothing reaches the application after the disconnect was reported (order of callbacks within this stimulus)
+    newev = c.ev[b["nev"]:]
+    if ("disconnect",) in newev:
+        after = [e[0] for e in newev[newev.index(("disconnect",)) + 1:]]
+        if any(k in ("msg", "logon", "logout") for k in after):
+            tag = ":".join(map(str, stim[:3]))
+            det["callbacks"] = [list(e) for e in newev]
+            return V("callback_after_disconnect", tag, "after any disconnect the connection emits no further message callbacks")
     # ---------------- after a disconnect: silence ------------------------------
     if b["dead"] or not mon["ever_connected"]:
         tag = ":".join(map(str, stim[:2]))
